@@ -840,8 +840,8 @@ func (m *Memory) JoinState(query *gorm.DB, name string) *gorm.DB {
 }
 
 func (m *Memory) JoinTransition(query *gorm.DB) *gorm.DB {
-	// TODO test
-	return query.Preload("transitions")
+	// transition fields are columns of [Time], nothing to join
+	return query
 }
 
 // func (m *Memory) SelectTime(query *gorm.DB, name string) *gorm.DB {
